@@ -319,4 +319,68 @@ def readExam (h : ExamHeader) (db : Option (Rat × Rat)) : Exam :=
     rnHalfLife := hl
     rnBranching := br }
 
+/-- `read_interfile_image` (interfile.cxx:165-173): a single image keeps only the first time frame of the header
+    (`set_num_time_frames(1)`, with a warning); 0 or 1 frames are left alone. -/
+def singleExam (e : Exam) : Exam :=
+  if e.frames.length > 1 then { e with frames := e.frames.take 1 } else e
+
+/-- `TimeFrameDefinitions(org_frame_defs, frame_num)` (TimeFrameDefinitions.cxx:250): the one frame `frame_num`
+    (1-based); `get_start_time` throws for a frame number beyond the list (`none`). -/
+def frameOf (frames : List (Rat × Rat)) (f : Nat) : Option (List (Rat × Rat)) :=
+  if f = 0 then none else (frames[f - 1]?).map fun p => [p]
+
+/-- `read_interfile_dynamic_image` (interfile.cxx:200, 219-220): the exam information of member `f` of a dynamic image
+    is the header's exam information with the time frame definitions replaced by frame `f` alone. -/
+def memberExam (e : Exam) (f : Nat) : Option Exam :=
+  (frameOf e.frames f).map fun fr => { e with frames := fr }
+
+/-- `MultiDynamicDiscretisedDensityInputFileFormat::read_from_file` (MultiDynamicDiscretisedDensityInputFileFormat.h:73-96):
+    every member is read as a single image and must have exactly one time frame (`error` otherwise = `none`); the
+    container's exam information is the first member's, with time frame `i` := the frame of member `i`. -/
+def multiDynExam (members : List Exam) : Option Exam :=
+  match members with
+  | [] => none                      -- (a `DynamicDiscretisedDensity` without exam information from any file)
+  | first :: _ =>
+    if members.all (fun m => m.frames.length == 1) then
+      some { first with frames := members.map fun m => m.frames.headD (0, 0) }
+    else none
+
+/-! ## 5. Files with several data sets (dynamic / parametric images) -/
+
+/-- `write_basic_interfile(…, DynamicDiscretisedDensity | ParametricVoxelsOnCartesianGrid, …)` (interfile.cxx:840-926):
+    `file_offsets[i-1] = output_data.tellp()` before each `write_data`; when every `write_data` writes its
+    `sizeAll·bytes` bytes, data set `i` (0-based) starts at `i·sizeAll·bytes`. -/
+def datasetOffsets (nsets sizeAll bytes : Nat) : List Nat :=
+  (List.range nsets).map fun i => i * (sizeAll * bytes)
+
+/-- the offsets the reader uses.  `data offset in bytes` is a registered (vectorised) key only after
+    `!type of data := PET` (`InterfileHeader::set_type_of_data`, InterfileHeader.cxx:431-441; in the `Tomographic`
+    branch the key is inside `#if 0`, l.451-454), and the writer announces `Tomographic` for modality NM
+    (interfile.cxx:592): for NM the lines `data offset in bytes[i] := …` are not recognised and every entry keeps the
+    default 0 of `read_frames_info` (l.466). -/
+def parsedOffsets (nm : Bool) (offsets : List Nat) : List Nat :=
+  if nm then offsets.map fun _ => 0 else offsets
+
+/-- the loop over the data sets in `read_interfile_dynamic_image` / `read_interfile_parametric_image`
+    (interfile.cxx:201-224, 255-289): `seekg(offset[i])`, `read_data`; the first failure makes the function return 0. -/
+def readAll (sizeAll bytes fileLen : Nat) : List Nat → Except Unit Unit
+  | [] => .ok ()
+  | o :: r =>
+    match readDataset o sizeAll bytes fileLen with
+    | .error e => .error e
+    | .ok _ => readAll sizeAll bytes fileLen r
+
+/-- reading an Interfile dynamic / parametric image whose header announces the data sets at `offsets` -/
+def readDatasets (nm : Bool) (offsets : List Nat) (sizeAll bytes fileLen : Nat) : Except Unit Unit :=
+  readAll sizeAll bytes fileLen (parsedOffsets nm offsets)
+
+/-- reading a Multi image (`Multi…InputFileFormat::read_from_file`): every member is a single image in a data file of
+    its own (length `lens[i]`), read from offset 0; `read_from_file` of a member that cannot be read throws. -/
+def readMembers (sizeAll bytes : Nat) : List Nat → Except Unit Unit
+  | [] => .ok ()
+  | len :: r =>
+    match readDataset 0 sizeAll bytes len with
+    | .error e => .error e
+    | .ok _ => readMembers sizeAll bytes r
+
 end StirVerif.C10
